@@ -11,9 +11,12 @@ def run_lint(rules):
         return {"checked": 0, "failures": []}
     h = os.path.join(vlib.VERIF, "harness")
     spec = json.dumps([dict(r, file=os.path.join(vlib.REPO, r["file"])) for r in rules])
-    with vlib.Lock("go"):
+    with vlib.Lock("vlint"):
         exe = os.path.join(vlib.BUILD, "vlint")
-        rc, out, err, _ = vlib.run(["go", "build", "-o", exe, "./cmd/vlint"], cwd=h, env=vlib.GOENV, timeout=600)
+        rc, out, err, _ = 0, "", "", 0
+        src = os.path.join(h, "cmd", "vlint", "main.go")
+        if not os.path.exists(exe) or os.path.getmtime(exe) < os.path.getmtime(src):
+            rc, out, err, _ = vlib.run(["go", "build", "-o", exe, "cmd/vlint/main.go"], cwd=h, env=vlib.GOENV, timeout=600)
     if rc != 0:
         return {"checked": 0, "failures": ["lint tool does not build: " + err[-500:]]}
     rc, out, err, _ = vlib.run([exe], stdin=spec, timeout=120)
